@@ -268,7 +268,50 @@ func (w *World) rulesEffects(out *[]Obligation) {
 		if census["go"]+census["chan"]+census["sync"] == 0 {
 			add(true, "R14.census", "concurrency", token.NoPos, fmt.Sprintf("no goroutine, channel, or sync/atomic use other than the pool; %d unsafe.Pointer conversions, all in Vector", census["unsafe"]))
 		}
-		w.rulesPool(p, sw, fns, add)
+		// the pool typestate is followed within one function: when it fails on the
+		// program as written, it is decided on the program with the thin wrappers
+		// around the pool (getParts / putParts) put back into the parser — the same
+		// program, by construction of the inlining passes (normalize2.go)
+		var poolObls []Obligation
+		addPool := func(ok bool, rule, inst string, pos token.Pos, detail string) {
+			poolObls = append(poolObls, Obligation{Rule: rule, Instance: k + "." + inst, Pos: p.posAt(pos), OK: ok, Detail: detail, NonTrivial: true})
+		}
+		p.resliceDeltas = nil
+		w.rulesPool(p, sw, fns, addPool)
+		nFail := 0
+		for _, o := range poolObls {
+			if !o.OK {
+				nFail++
+			}
+		}
+		if nFail > 0 && !w.normalized && p.usesSyncPool() {
+			if w2, notes, err := w.inlinedParserWorld(k); err == nil && w2 != nil {
+				if sw2, err := w2.buildSSA(); err == nil {
+					p2 := w2.Pkgs[k]
+					var obls2 []Obligation
+					add2 := func(ok bool, rule, inst string, pos token.Pos, detail string) {
+						if ok {
+							detail += " (decided on the program with its pool wrappers inlined: " + strings.Join(notes, "; ") + ")"
+						} else {
+							detail += " (on the program with its pool wrappers inlined)"
+						}
+						obls2 = append(obls2, Obligation{Rule: rule, Instance: k + "." + inst, Pos: p2.posAt(pos), OK: ok, Detail: detail, NonTrivial: true})
+					}
+					p2.resliceDeltas = nil
+					w2.rulesPool(p2, sw2, sw2.fns[k], add2)
+					nFail2 := 0
+					for _, o := range obls2 {
+						if !o.OK {
+							nFail2++
+						}
+					}
+					if nFail2 < nFail {
+						poolObls = obls2
+					}
+				}
+			}
+		}
+		*out = append(*out, poolObls...)
 		w.rulesBuf(p, add)
 	}
 }
@@ -295,6 +338,21 @@ func (w *World) rulesPool(p *Pkg, sw *ssaWorld, fns []*ssa.Function, add func(ok
 				}
 			}
 		}
+		// an unexported function nothing in the package refers to cannot run
+		if fdS, ok := f.Syntax().(*ast.FuncDecl); ok && (len(gets) > 0 || len(puts) > 0) && !ast.IsExported(fdS.Name.Name) {
+			if obj := p.Info.Defs[fdS.Name]; obj != nil {
+				used := false
+				for _, u := range p.Info.Uses {
+					if u == obj {
+						used = true
+						break
+					}
+				}
+				if !used {
+					continue
+				}
+			}
+		}
 		if len(gets) == 0 {
 			for _, pc := range puts {
 				add(false, "R14.pool", fname+".put", pc.Pos(), "Put without a Get in the same function")
@@ -306,6 +364,7 @@ func (w *World) rulesPool(p *Pkg, sw *ssaWorld, fns []*ssa.Function, add func(ok
 			// taint
 			tainted := map[ssa.Value]string{g: "iface"}
 			var splitRes ssa.Value
+			resliceDelta := -1
 			bad := []string{}
 			work := []ssa.Value{g}
 			note := func(pos token.Pos, s string) { bad = append(bad, p.posAt(pos)+": "+s) }
@@ -341,12 +400,30 @@ func (w *World) rulesPool(p *Pkg, sw *ssaWorld, fns []*ssa.Function, add func(ok
 						// [: split+1]
 						okS := x.Low == nil && x.Max == nil
 						if okS {
+							isSplitOf := func(val ssa.Value) *ssa.Call {
+								c, ok := val.(*ssa.Call)
+								if !ok || c.Common().StaticCallee() == nil {
+									return nil
+								}
+								for _, a := range c.Common().Args {
+									if a == v {
+										return c
+									}
+								}
+								return nil
+							}
 							if bin, ok := x.High.(*ssa.BinOp); ok && bin.Op == token.ADD {
-								if c, ok := bin.X.(*ssa.Call); ok && c.Common().StaticCallee() != nil && len(c.Common().Args) >= 1 && c.Common().Args[0] == v {
+								one, isOne := bin.Y.(*ssa.Const)
+								if c := isSplitOf(bin.X); c != nil && isOne && one.Value != nil && one.Int64() == 1 {
 									splitRes = c
+									resliceDelta = 1
 								} else {
 									okS = false
 								}
+							} else if c := isSplitOf(x.High); c != nil {
+								// [:n] with n what split returns: right when split returns a count
+								splitRes = c
+								resliceDelta = 0
 							} else {
 								okS = false
 							}
@@ -412,6 +489,15 @@ func (w *World) rulesPool(p *Pkg, sw *ssaWorld, fns []*ssa.Function, add func(ok
 					case *ssa.Return:
 						note(x.Pos(), "the pooled slice is returned")
 					case *ssa.MakeInterface:
+						if _, isPtr := x.X.Type().Underlying().(*types.Pointer); isPtr && kind == "full" {
+							// a pointer goes into an interface without allocating; the box may
+							// only be handed to Put
+							if _, ok := tainted[x]; !ok {
+								tainted[x] = "iface"
+								work = append(work, x)
+							}
+							continue
+						}
 						note(x.Pos(), "the pooled slice is re-boxed into an interface (allocates, and may be put back twice)")
 					case *ssa.MakeClosure, *ssa.Go, *ssa.Send, *ssa.MapUpdate:
 						note(r.Pos(), "the pooled slice escapes")
@@ -426,7 +512,7 @@ func (w *World) rulesPool(p *Pkg, sw *ssaWorld, fns []*ssa.Function, add func(ok
 			sameVal := len(puts) > 0
 			for _, pc := range puts {
 				args := pc.Common().Args
-				if len(args) != 2 || args[1] != ssa.Value(g) {
+				if len(args) != 2 || (args[1] != ssa.Value(g) && tainted[args[1]] != "iface") {
 					sameVal = false
 				}
 				if _, ok := pc.(*ssa.Defer); ok {
@@ -518,17 +604,59 @@ func (w *World) rulesPool(p *Pkg, sw *ssaWorld, fns []*ssa.Function, add func(ok
 				}
 			}
 			add(leak == "", "R17.put", fname+".put", g.Pos(), map[bool]string{true: "every exit hands the very interface value obtained from Get back to the pool (no re-boxing, no leak)", false: leak}[leak == ""])
+			if resliceDelta >= 0 && p.Key == "20" {
+				p.resliceDeltas = append(p.resliceDeltas, resliceDelta)
+			}
 			add(len(bad) == 0 && splitRes != nil, "R14.pool", fname+".use", g.Pos(), map[bool]string{true: "the pooled slice is only resliced to the live prefix [:split+1], indexed for reading, and passed to split; it does not escape", false: "pool typestate violated: " + strings.Join(bad, "; ") + map[bool]string{true: "", false: " (no reslice to the prefix written by split)"}[splitRes != nil]}[len(bad) == 0 && splitRes != nil])
 		}
 	}
 	if p.Key == "20" {
+		if nGet == 0 && !p.usesSyncPool() {
+			// no pool at all: nothing is shared between calls (what the parser allocates
+			// instead is C17's census of heap sites)
+			why := "the v2.0 package does not use sync.Pool: no scratch storage is shared between calls"
+			add(true, "R14.pool", "census", token.NoPos, why)
+			add(true, "R14.pool", "ParseVector.use", token.NoPos, why)
+			add(true, "R14.pool", "ParseVector.put", token.NoPos, why)
+			add(true, "R17.put", "ParseVector.put", token.NoPos, why)
+			return
+		}
 		if nGet == 0 {
 			add(false, "R14.pool", "census", token.NoPos, "no pool Get found in the v2 package: undecided")
 		}
-		// split writes every index it reports
+		// split writes every index it reports, and the caller reslices to what it reports
 		ok, why := p.checkSplitWrites()
+		delta := 1 // the recognised shape returns the last index
+		if !ok {
+			if ss := p.splitSemantics(p.parseModelOf()); ss.decided {
+				ok, why, delta = ss.ok, ss.why, ss.delta
+			}
+		}
 		add(ok, "R14.pool", "split.writes", token.NoPos, why)
+		for _, d := range p.resliceDeltas {
+			if ok && d != delta {
+				add(false, "R14.pool", "split.reslice", token.NoPos, fmt.Sprintf("the pooled storage is resliced to [:r+%d] where r is what split returns, but split returns %s: the parser reads one entry too many (left by an earlier call) or drops the last part", d, map[int]string{0: "the number of parts", 1: "the index of the last part"}[delta]))
+			}
+		}
 	}
+}
+
+// usesSyncPool: some expression of the package has a type from package sync
+// named Pool.
+func (p *Pkg) usesSyncPool() bool {
+	for _, o := range p.Info.Uses {
+		if o == nil || o.Type() == nil {
+			continue
+		}
+		t := o.Type()
+		if pt, ok := t.(*types.Pointer); ok {
+			t = pt.Elem()
+		}
+		if nt, ok := t.(*types.Named); ok && nt.Obj().Pkg() != nil && nt.Obj().Pkg().Path() == "sync" && nt.Obj().Name() == "Pool" {
+			return true
+		}
+	}
+	return false
 }
 
 // checkSplitWrites (AST): in split(dst, s) every `curr++` and the final
